@@ -87,15 +87,15 @@ Definition pinned_names (st : symtab) (refs : list nat) : list name :=
 
 Fixpoint reservedForScope (st : symtab) (sc : scope) : list name :=
   match sc with
-  | Scope mem gen _ de children =>
+  | Scope mem gen _ _ children =>
       pinned_names st mem ++ pinned_names st gen ++
-      (if de
-       then (fix go (cs : list scope) : list name :=
-               match cs with
-               | [] => []
-               | c :: r => (if sc_eval c then reservedForScope st c else []) ++ go r
-               end) children
-       else [])
+      (* since 3eb6e21 the whole scope tree is traversed (not only direct-eval chains):
+         names pinned by `with`, `arguments`, ... in nested scopes are reserved too *)
+      (fix go (cs : list scope) : list name :=
+         match cs with
+         | [] => []
+         | c :: r => reservedForScope st c ++ go r
+         end) children
   end.
 
 Definition ComputeReservedNames (st : symtab) (moduleScopes : list scope) : list name :=
